@@ -299,6 +299,18 @@ pub fn fuzz_seeds() -> vcore::fuzzglue::Seeds {
 
 /// Check one instance with an arbitrary font repository. Returns true if it was judged (not skipped).
 pub fn check_instance<F: boxworks::FontRepo>(inst: &Instance, font: &F, obs: &mut Obs, tally: &mut Tally, in_known_phase: bool) -> bool {
+    for (i, e) in inst.list.iter().enumerate() {
+        if let ds::Horizontal::Discretionary(d) = e {
+            let r = d.replace_count as usize;
+            if inst.list[i + 1..(i + 1 + r).min(inst.list.len())]
+                .iter()
+                .any(|x| matches!(x, ds::Horizontal::Kern(k) if k.kind == ds::KernKind::Explicit))
+            {
+                tally.hit("feature:explicit-kern-among-replaced-nodes");
+                break;
+            }
+        }
+    }
     let items = match to_items(&inst.list, font) {
         Ok(i) => i,
         Err(_) => {
@@ -435,6 +447,48 @@ fn word(c: char, n: usize) -> Vec<ds::Horizontal> {
     (0..n).map(|_| gen::ch(c, 0)).collect()
 }
 
+/// Fixed reproducer of C04-explicit-kern-ending-replaced-range-is-a-breakpoint (the shape is outside the model's domain,
+/// see `Model::new`): x x \discretionary{-}{}{d\kern10pt} <glue> y y. TeX steps over the two replaced nodes: the legal
+/// breakpoints are the discretionary (index 2) and the glue (index 5, prev_p = the discretionary). The code under test
+/// visits the replaced nodes and logs a feasible break AT the kern (index 4), never at the glue.
+const KNOWN_REPLACED_KERN: &str = "C04-explicit-kern-ending-replaced-range-is-a-breakpoint";
+
+fn replaced_kern_reproducer(obs: &mut Obs) {
+    let mut l = vec![gen::ch('x', 0), gen::ch('x', 0)];
+    l.push(ds::Horizontal::Discretionary(ds::Discretionary {
+        pre_break: vec![ds::DiscretionaryElem::Char(ds::Char { char: '-', font: 0 })],
+        post_break: vec![],
+        replace_count: 2,
+    }));
+    l.push(gen::ch('d', 0));
+    l.push(gen::kern(10 * PT, ds::KernKind::Explicit));
+    l.push(gen::glue(5 * PT, 3 * PT, GlueOrder::Normal, PT));
+    l.push(gen::ch('y', 0));
+    l.push(gen::ch('y', 0));
+    gen::par_end(&mut l);
+    let inst = Instance { list: l, params: kp::Params::plain_tex_defaults(), widths: vec![Scaled(60 * PT)], tolerance: 10000, emergency: Scaled::ZERO };
+    let o = match observe(&inst, &SynthFont, false) {
+        Ok(o) => o,
+        Err(p) => {
+            obs.repo_panic(&p, json!({"instance": instance_json(&inst)}));
+            return;
+        }
+    };
+    let at = |pos: usize| o.events.iter().any(|e| matches!(e, judge::Ev::Fb { elem, .. } if *elem == pos));
+    obs.nontrivial_by_construction(1);
+    match (at(4), at(5)) {
+        (false, true) => obs.count("known-reproducer-now-matches-tex"),
+        (true, false) => obs.known(
+            KNOWN_REPLACED_KERN,
+            json!({"instance": instance_json(&inst), "feasible_break_logged_at_the_replaced_kern(4)": true, "feasible_break_logged_at_the_glue(5)": false}),
+        ),
+        (a, b) => obs.violation(
+            "known:replaced-kern-reproducer-neither-tex-nor-the-listed-deviation",
+            json!({"instance": instance_json(&inst), "break_at_kern": a, "break_at_glue": b}),
+        ),
+    }
+}
+
 fn known_instances() -> Vec<Instance> {
     let mk = |list: Vec<ds::Horizontal>, w: i32, tol: i32| Instance {
         list,
@@ -466,6 +520,29 @@ fn known_instances() -> Vec<Instance> {
     l.push(gen::glue(5 * PT, 0, GlueOrder::Normal, 0));
     l.extend(word('B', 5));
     v.push(mk(l, 25 * PT, 200));
+    // (d) control: a discretionary whose replaced nodes include an EXPLICIT kern and which is the only place where the
+    // paragraph can be broken (TeX §841 adds the width of any kern among the replaced nodes to the break width):
+    // x x \discretionary{a-}{b}{a\kern10pt b} y y
+    for kind in [ds::KernKind::Explicit, ds::KernKind::Normal] {
+        let mut l = vec![gen::ch('x', 0), gen::ch('x', 0)];
+        l.push(ds::Horizontal::Discretionary(ds::Discretionary {
+            pre_break: vec![ds::DiscretionaryElem::Char(ds::Char { char: 'a', font: 0 }), ds::DiscretionaryElem::Char(ds::Char { char: '-', font: 0 })],
+            post_break: vec![ds::DiscretionaryElem::Char(ds::Char { char: 'b', font: 0 })],
+            replace_count: 3,
+        }));
+        l.push(gen::ch('a', 0));
+        l.push(gen::kern(10 * PT, kind));
+        l.push(gen::ch('b', 0));
+        l.push(gen::ch('y', 0));
+        l.push(gen::ch('y', 0));
+        gen::par_end(&mut l);
+        // the second line (b y y + parfillskip) fits in any width that holds it; the first (x x a -) is rigid: give the
+        // exact width of the first line
+        let first: i64 = gen::natural_width(&[gen::ch('x', 0), gen::ch('x', 0), gen::ch('a', 0), gen::ch('-', 0)]);
+        let second: i64 = gen::natural_width(&[gen::ch('b', 0), gen::ch('y', 0), gen::ch('y', 0)]);
+        // a line width that both lines fit into, the second one exactly or with less than the kern's width to spare
+        v.push(mk(l, first.max(second) as i32, 10000));
+    }
     v
 }
 
@@ -528,7 +605,7 @@ impl Monitor for M {
     }
     fn phases(&self, tier: Tier) -> Vec<Phase> {
         vec![
-            Phase::new("known", known_instances().len() as u64).batch(1),
+            Phase::new("known", known_instances().len() as u64 + 1).batch(1),
             Phase::new("enum", enum_cases(tier.pick(ENUM_MAX_LEN_QUICK as u64, ENUM_MAX_LEN_THOROUGH as u64) as u32))
                 .batch(512)
                 .exhaustive("all lists of length 1..6 (thorough: 1..7) over {A, glue 5pt+3-1, glue 4pt, explicit kern 4pt, penalty 0, penalty -10000, disc{B}{}{}} x line width {12pt, 21pt} x tolerance {200, 10000}"),
@@ -583,8 +660,13 @@ impl Monitor for M {
         let mut tally = Tally::default();
         match phase {
             "known" => {
-                let inst = known_instances().swap_remove(idx as usize);
-                check_instance(&inst, &SynthFont, obs, &mut tally, true);
+                let mut k = known_instances();
+                if (idx as usize) < k.len() {
+                    let inst = k.swap_remove(idx as usize);
+                    check_instance(&inst, &SynthFont, obs, &mut tally, true);
+                } else {
+                    replaced_kern_reproducer(obs);
+                }
             }
             "enum" => {
                 let list = enum_decode(idx);
